@@ -16,7 +16,7 @@ RULE = ("causes {duplicate type, table full, label too long / non-cp1252 at firs
         "distinct (cause, abstract state) pairs are counted")
 ASSUMPTIONS = ["an injected fault models a deterministic property of the request (it recurs on every encode of that block)",
                "for files with an unused slot between live blocks only add, setter-add and replace of a block before the hole are judged"]
-REQUIRED = {t: ["oracle:C07.rejected-leaves-file", "c07:cause:duplicate-type", "c07:cause:table-full",
+REQUIRED = {t: ["oracle:C07.rejected-leaves-file", "oracle:C07.refusal-propagates-out-of-the-context", "c07:cause:duplicate-type", "c07:cause:table-full",
                 "c07:cause:label-too-long", "c07:cause:label-non-cp1252", "c07:cause:comment-too-long",
                 "c07:cause:comment-non-cp1252", "c07:cause:unsupported-format", "c07:cause:wrong-object",
                 "c07:cause:remove-absent", "c07:cause:replace-absent", "c07:cause:unused-slot-between-live-blocks",
